@@ -124,7 +124,9 @@ def check_index(case, ctx):
                                 observed=None if m is None else m.adapter.sequence, expected=seqs[occurring[0]])
         # (3) differential, equal lengths, no indels
         if not indels and len(set(map(len, seqs))) == 1 and len(seqs[0]) <= n:
-            ds = sorted(b for b in best if b is not None)
+            # distances of the adapters that occur within their own tolerance (an adapter that is closer but not
+            # within its tolerance is no candidate for either search)
+            ds = sorted(best[i] for i in occurring)
             if len(ds) >= 2 and ds[0] != ds[1]:
                 ctx.label("differential-obligation")
                 nontrivial = True
